@@ -392,11 +392,28 @@ func (r *Rel) Invert() Rel {
 //
 // This is the form stored in Schema.Rels.
 func (r *Rel) Normalize() Rel {
-	from := r.FromType + r.FromName
-	to := r.ToType + r.ToName
-
-	if from < to || r.ToName == "" {
+	if r.ToName == "" {
 		return *r
+	}
+
+	// The type names are compared first and then the relationship names.
+	// They are compared separately (not concatenated) so that, for example,
+	// type "ab" with name "c" is not confused with type "a" with name "bc".
+	switch {
+	case r.FromType != r.ToType:
+		if r.FromType < r.ToType {
+			return *r
+		}
+	case r.FromName != r.ToName:
+		if r.FromName < r.ToName {
+			return *r
+		}
+	default:
+		// The relationship is its own inverse, only the cardinalities
+		// can differ. The to-one side comes first.
+		if r.ToOne || !r.FromOne {
+			return *r
+		}
 	}
 
 	return r.Invert()
